@@ -65,6 +65,9 @@ def verbatim_newline(t, inside=False):
 def classify(finding, case):
     if finding["cls"] == "verbatim-content-with-newline":
         return case.get("width", 0) > 0 and verbatim_newline(pp.tuple_tree(case["doc"]))
+    if finding["cls"] == "newline-in-indentation":
+        # the complement of the theorems' guard `no_lf ind` at width > 0
+        return case.get("width", 0) > 0 and "\n" in case.get("indentation", "")
     return False
 
 
@@ -105,7 +108,7 @@ def pick_options(ctx, n0, nw, hint):
     width_hint, ind_hint = hint if isinstance(hint, tuple) else (hint, None)
     g = []
     for _ in range(n0):
-        g.append((ctx.rng.choice(pp.INDENTS), ctx.rng.random() < 0.3, 0))
+        g.append((ctx.rng.choice(pp.INDENTS0), ctx.rng.random() < 0.3, 0))
     for _ in range(nw):
         w = width_hint if (width_hint and ctx.rng.random() < 0.6) else ctx.rng.choice(WIDTHS[1:])
         ind = ind_hint if (ind_hint is not None and ctx.rng.random() < 0.7) else ctx.rng.choice(pp.INDENTS)
@@ -140,6 +143,19 @@ def gen_coincidence(rng):
     for _ in range(depth - 1):
         t = ("tag", "", rng.choice(["r", "x"]), [], rng.choice([[], [("text", "w ")]]) + [t] + rng.choice([[], [("text", " z")]]))
     return to_xml(t), (rng.choice(WIDTHS[1:]), ind)
+
+
+def gen_lf_indent(rng):
+    """indentation with a newline in it and a line width: a text whose trailing space is consumed by a line break,
+    followed by an element / comment, at some depth (the writer's offset counts from the newline inside the indentation)"""
+    ind = rng.choice(pp.LF_INDENTS + ["\t\n", "\n\n"])
+    words = [rng.choice(["a", "b", "aa", "bbb", "cc"]) for _ in range(rng.choice([2, 2, 3]))]
+    follow = rng.choice([[("tag", "", "i", [], [])], [("tag", "", "i", [], []), ("text", "c")], [("comment", "")],
+                         [("tag", "", "i", [], [("text", "q")]), ("text", " d")]])
+    t = ("tag", "", "e", [], [("text", " ".join(words) + " ")] + follow)
+    for _ in range(rng.choice([0, 0, 1, 2, 4])):
+        t = ("tag", "", rng.choice(["r", "x"]), [], [t])
+    return to_xml(t), (rng.choice([1, 1, 2, 3, 4]), ind)
 
 
 def check_docs(ctx, docs, max_sub, n0, nw, seen_rate):
@@ -288,6 +304,14 @@ def gen_docs(ctx, n):
     for _ in range(max(6, n // 12)):
         xml, hint = gen_preserve_nested(ctx.rng)
         docs.append(("preserve-nested", xml, hint))
+    for _ in range(max(4, n // 25)):
+        xml, hint = gen_lf_indent(ctx.rng)
+        docs.append(("lf-indent", xml, hint))
+    # the general generators with an indentation that contains a newline
+    for _ in range(max(4, n // 25)):
+        w = ctx.rng.choice(WIDTHS[1:13])
+        t = pp.gen_mixed_tree(ctx.rng, ctx.rng.choice([1, 2, 2]), width_hint=w, preserve_rate=0.05)
+        docs.append(("lf-indent-mixed", to_xml(t), (w, ctx.rng.choice(pp.LF_INDENTS))))
     # deep chains (9-12 nested elements): indentation of lines 8 and more levels below the serialization root
     for d, ds in ([(9, True), (11, False)] if ctx.tier == "quick" else [(9, True), (10, False), (12, True), (12, False)]):
         docs.append(("deep", to_xml(pp.gen_deep_chain(ctx.rng, d, data_style=ds)), ctx.rng.choice([8, 12, 20, 40])))
@@ -315,7 +339,9 @@ def run(ctx, args):
              "empty elements, attributes, xml:space preserve/default/invalid at any depth, preserved content with "
              "newlines, preserved elements with nested children holding runs of spaces inside inline elements that fit the line) + conventionally laid out documents + chains of 9-12 nested elements; parsed with reduce_whitespace; serialized from the root and "
              "from sampled sub-trees with indentation in {'', ' ', '  ', '\\t', ' \\t'} x width in {0..12, 20, 40, 80} x "
-             "align in {F, T} (option sets drawn per tree; widths biased to the document's word lengths). "
+             "align in {F, T} (option sets drawn per tree; widths biased to the document's word lengths); indentations "
+             "with a newline ('\\n', ' \\n', '\\n ', '\\t\\n', '\\n\\n') at width 0 everywhere and at width > 0 on "
+             "dedicated documents (text ending in a space before an element, at depth 1-5; mixed documents). "
              "One evaluation = one (tree, options) output compared byte for byte with the model and re-read through the "
              "real parser with ParserOptions(reduce_whitespace=True); a sample is also compared at the parsed-tree level. "
              "Non-trivial = the formatted output differs from the plain serialization; distinct by (tree, options).",
